@@ -187,7 +187,8 @@ def write_footprint():
       * a parameter                                    (owner = the package class named in its annotation, `?` if none),
       * a local that is an ALIAS of one of those: assigned from such a name or from an attribute/item chain on it with no
         call in between, or the loop variable of an iteration over one (owner inherited);
-    plus `setattr`/`__setattr__` calls and memoising decorators (lru_cache, cache, cached_property)."""
+    plus `setattr`/`__setattr__` calls, memoising decorators (lru_cache, cache, cached_property) and mutable default
+    arguments (a list/dict/set literal or constructor call as a parameter default - shared by all calls)."""
     import joserfc
     root = Path(joserfc.__file__).resolve().parent
     out = []
@@ -234,6 +235,12 @@ def write_footprint():
                 dn = describe(d)
                 if any(k in dn for k in ("lru_cache", "cached_property")) or dn in ("cache", "functools.cache"):
                     out.append((rel, owner_self, fn.name, "decorator", dn))
+            # a mutable default argument is one object shared by every call that omits the argument (also in __init__)
+            for dflt in list(fn.args.defaults) + [d_ for d_ in fn.args.kw_defaults if d_ is not None]:
+                if isinstance(dflt, (ast.List, ast.Dict, ast.Set, ast.ListComp, ast.DictComp, ast.SetComp)) or \
+                        (isinstance(dflt, ast.Call) and describe(dflt.func).split(".")[-1] in
+                         ("dict", "list", "set", "bytearray", "defaultdict", "OrderedDict", "deque", "Counter")):
+                    out.append((rel, owner_self, fn.name, "mutable-default", describe(dflt)))
             if fn.name == "__init__" or fn.name.startswith("register"):
                 return
             params = {}
